@@ -36,4 +36,33 @@ def normXySq (fl : Rat → Rat) (pts : List (Rat × Rat)) : List Rat :=
   let my := meanF fl (pts.map (·.2))
   pts.map fun p => fl (fl (fl (p.1 - mx) * fl (p.1 - mx)) + fl (fl (p.2 - my) * fl (p.2 - my)))
 
+/-! ### numpy's pairwise summation for 8 ≤ n ≤ 128 (`pairwise_sum`, one block): eight running accumulators over chunks
+of eight, combined as a fixed tree, the `n % 8` leftover elements added one by one -/
+
+/-- `k` more chunks of eight added into the eight accumulators `r`; returns the accumulators and what is left over -/
+def accsK (fl : Rat → Rat) : Nat → List Rat → List Rat → List Rat × List Rat
+  | 0, r, rest => (r, rest)
+  | k + 1, r, rest => accsK fl k (List.zipWith (fun a b => fl (a + b)) r (rest.take 8)) (rest.drop 8)
+
+/-- `np.add.reduce` of a contiguous 1-d float64 array with at most 128 elements -/
+def pairSum (fl : Rat → Rat) (xs : List Rat) : Rat :=
+  if xs.length < 8 then seqSum fl xs
+  else
+    let (r, tail) := accsK fl (xs.length / 8 - 1) (xs.take 8) (xs.drop 8)
+    let g := fun (i : Nat) => r.getD i 0
+    let res := fl (fl (fl (g 0 + g 1) + fl (g 2 + g 3)) + fl (fl (g 4 + g 5) + fl (g 6 + g 7)))
+    tail.foldl (fun acc x => fl (acc + x)) res
+
+/-- `arr.mean()` of a 1-d array (pairwise summation) -/
+def meanP (fl : Rat → Rat) (xs : List Rat) : Rat := fl (pairSum fl xs / ((xs.length : Nat) : Rat))
+
+/-- `norm_xy(pts)` for up to 128 points: the coordinate means are axis-0 reductions (sequential), the mean distance is
+a 1-d reduction (pairwise).  For fewer than 8 points this is `normXyF`. -/
+def normXyP (fl : Rat → Rat) (pts : List (Rat × Rat)) (ds : List Rat) (r2 : Rat) : NormXYR :=
+  let mx := meanF fl (pts.map (·.1))
+  let my := meanF fl (pts.map (·.2))
+  let m := meanP fl ds
+  let s := if 0 < m then fl (r2 / m) else 1
+  ⟨pts.map fun p => (fl (fl (p.1 - mx) * s), fl (fl (p.2 - my) * s)), s, fl (-mx * s), fl (-my * s)⟩
+
 end OdcGeo.C20
